@@ -478,6 +478,10 @@ static AddOutcome do_add(Exec& ex, Crystal_Array* arr, ArrayModel* m, const Crys
       // handled allocation failure: rejected, collection must be unchanged (verified by the caller's verify_array)
     } else if (fired) {
       // swallowed: not judged
+    } else if (expect == 1 && ret == 0 && d && !d->plain()) {
+      // an unusual crystal (odd name, no atoms, degenerate cell, element without data ...) may be refused -- cleanly:
+      // with an error, and with the collection unchanged (verified against the model right after the op)
+      if (ep && !*ep) violation("model-mismatch", "Crystal_AddCrystal", "unusual crystal rejected without an error");
     } else if (ret != expect) {
       violation("model-mismatch", "Crystal_AddCrystal", "returned %d, model expects %d (%s; size %zu, n_alloc %d)", ret, expect, why, m->dict.size(), before_alloc);
     } else if (ep && expect == 0 && !*ep) {
@@ -832,14 +836,15 @@ void Exec::run_op(const Op& op) {
       bool eio_hits = vf.eio_at >= 0 && vf.eio_at <= (truncated ? vf.trunc_at : len);   // a read at end-of-data position also errors
       enum { MUST_FAIL, MUST_OK, EITHER, EITHER_BUT_FAITHFUL } cls;
       const char* why = "";
-      bool collide = false;
+      bool collide = false, all_plain = true;
       if (m) for (auto& c : contents) if (m->dict.count(c.name)) collide = true;
+      for (auto& c : contents) all_plain = all_plain && c.plain();
       if (op.fs.name_null) { cls = MUST_FAIL; why = "NULL file name"; }
       else if (vf.open_errno) { cls = MUST_FAIL; why = "open fails"; }
       else if (eio_hits && vf.eio_at < data_end && (!truncated || vf.eio_at < vf.trunc_at)) { cls = MUST_FAIL; why = "read error inside the crystal data"; }
       else if (m && m->builtin && wf && !collide && (int)(m->dict.size() + contents.size()) > CRYSTALARRAY_MAX && !truncated && !eio_hits) { cls = MUST_FAIL; why = "would exceed the built-in capacity"; }
-      else if (wf && !truncated && !eio_hits && !vf.unseekable && !collide) { cls = MUST_OK; why = "well-formed file, no fault"; }
-      else if (layout_only && !truncated && !eio_hits && !vf.unseekable && !collide) { cls = EITHER_BUT_FAITHFUL; why = "layout differs from the shipped dialect, content intact"; }
+      else if (wf && !truncated && !eio_hits && !vf.unseekable && !collide && all_plain) { cls = MUST_OK; why = "well-formed file of ordinary crystals, no fault"; }
+      else if ((layout_only || wf) && !truncated && !eio_hits && !vf.unseekable && !collide) { cls = EITHER_BUT_FAITHFUL; why = "layout differs from the shipped dialect, content intact"; }
       else { cls = EITHER; why = "outside the strict dialect / benign fault"; }
       int before_n = actual->n_crystal;
       ExactStr fname_x(nm, strlen(nm), op.fs.name_null != 0, 2);
